@@ -444,7 +444,9 @@ func c09Check(prop, tier string) (*Outcome, error) {
 	for _, j := range jobs {
 		byName[j.Name] = j
 	}
-	pairs := []c09Job{byName["clean"], byName["switch"], byName["switch"], byName["clean"]} // grammars without warnings, no -switch (its rune loops make millions of points)
+	// no -switch here (its rune loops make millions of points); the second and third pair have undefined
+	// and unused rules (the generator builds placeholder nodes for those)
+	pairs := []c09Job{byName["clean"], byName["switch"], byName["manywarn"], byName["warnings"], byName["warnings"], byName["leftrec"]}
 	b2, max2 := 0, int64(2000)
 	if tier == "thorough" {
 		b2, max2 = 1, 200000
